@@ -1645,6 +1645,16 @@ impl<'de, 'e> de::Deserializer<'de> for YamlDeserializer<'de, 'e> {
             // End of input → None
             None => visitor.visit_none(),
 
+            // Placeholder for an alias of a recursive anchor that is still being read
+            // (`next: *node` inside `&node`): that is a value, e.g. `Option<RcRecursion<T>>`.
+            Some(Ev::Scalar { tag, anchor, .. })
+                if tag == &SfTag::Null
+                    && *anchor != 0
+                    && crate::anchor_store::recursive_anchor_in_progress(*anchor) =>
+            {
+                visitor.visit_some(self)
+            }
+
             // Tagged null → None regardless of style/value
             Some(Ev::Scalar { tag, .. }) if tag == &SfTag::Null => {
                 let _ = self.ev.next()?; // consume
